@@ -262,7 +262,7 @@ type plan struct {
 
 func mkPlan(c *vc.Ctx) plan {
 	return plan{
-		nMsgStreams: c.Pick(400, 12000), nV2Streams: c.Pick(800, 24000), nV2Long: c.Pick(8, 300), nEdge: c.Pick(16, 320),
+		nMsgStreams: c.Pick(400, 8000), nV2Streams: c.Pick(800, 16000), nV2Long: c.Pick(8, 200), nEdge: c.Pick(16, 200),
 		capSteps: c.Pick(800, 4000), capRuns: c.Pick(8, 32), corruptShard: 8,
 	}
 }
